@@ -179,8 +179,9 @@ func reconstructAliasedMap(node *CandidateNode, context Context) error {
 		}
 	}
 	node.Content = make([]*CandidateNode, 0)
-	for newEl := newContent.Front(); newEl != nil; newEl = newEl.Next() {
-		node.AddChild(newEl.Value.(*CandidateNode))
+	// the new content is a list of key, value, key, value...: each value has to know its key node
+	for newEl := newContent.Front(); newEl != nil && newEl.Next() != nil; newEl = newEl.Next().Next() {
+		node.AddKeyValueChild(newEl.Value.(*CandidateNode), newEl.Next().Value.(*CandidateNode))
 	}
 	return nil
 }
